@@ -415,6 +415,29 @@ struct ARun {
         }
       o.cls("iter");
       check(r, 0, 0);
+    } else if (k == "huge") {  // huge g: an empty untyped array grows to 1..3 GiB in ONE step, the two ends are touched, and it goes back to empty
+      if (typed || !d.empty()) return;
+      size_t n = ((size_t)1 << 30) + (size_t)uarg(op, 0, 2049) * ((size_t)1 << 20) + (size_t)uarg(op, 1, 4096);
+      opname = fmt("resize(%zu x 1) from empty", n);
+      int rc = ea_resize(ty, ea, n, 1, &err);
+      if (rc != 0) return;  // an allocator may refuse this much; nothing changed then (C14's business)
+      size_t gs = ea_getsize(ty, ea, 1);
+      if (gs != n) {
+        o.fail("ea-getsize", ctx() + fmt(": after growing to %zu bytes in one step getsize says %zu", n, gs));
+        return;
+      }
+      uint8_t *first = (uint8_t *)ea_get(ty, ea, 0, 1), *last = (uint8_t *)ea_get(ty, ea, n - 1, 1);
+      if (last != first + (n - 1)) {
+        o.fail("ea-get-ptr", ctx() + ": get(n-1) is not get(0) + n - 1");
+        return;
+      }
+      *first = 1;
+      *last = 2;  // outside the allocation if the array believes it is larger than its buffer
+      if (alloc() < n) o.fail("ea-alloc-below-size", ctx() + fmt(": the array holds %zu bytes in an allocation of %zu", n, alloc()));
+      rc = ea_resize(ty, ea, 0, 1, &err);
+      if (rc != 0 && o.ok) o.fail("ea-resize-fail", ctx() + ": resize back to 0 failed");
+      o.cls("grown-by-more-than-1GiB-in-one-step");
+      check(1, 0, 0);
     } else if (k == "itsh") {  // itsh at drop: iterate, and have the callback of visit #at drop `drop` records from the end of the array
       if (!typed) return;
       size_t r = rl(1);
@@ -537,6 +560,10 @@ struct ARun {
 
 static Outcome run_array(const Case &c, bool typed) {
   Outcome o;
+  // allocator behaviour is part of the environment: in every second case realloc leaves shrinking blocks where they are (chosen by the case)
+  bool inplace = (pbt::fnv(to_text(c)) >> 3) & 1;
+  trk_set_inplace(inplace);
+  o.cls(inplace ? "realloc-shrinks-in-place" : "realloc-always-moves");
   ARun R(o, typed);
   size_t i = 0;
   if (c.empty() || c[0].k != "init") {
@@ -611,10 +638,12 @@ static rc::Gen<Op> gen_aop(int tier, bool typed) {
     case 9:
       return Op("dup", {r});
     case 10:
+      if (*range<int>(0, 40) == 0) return Op("huge", {*range<int64_t>(0, 2048), *range<int64_t>(0, 4095)});
       return *range<int>(0, 2) ? Op("iter") : Op("itsh", {*range<int64_t>(0, 1 << 20), *range<int64_t>(0, 1 << 20)});
     case 11:
       return Op("ovf", {*range<int64_t>(0, 3), *range<int64_t>(0, 3), r, *range<int64_t>(0, 999)});
     case 12:
+      if (*range<int>(0, 5) == 0) return Op("huge", {*range<int64_t>(0, 2048), *range<int64_t>(0, 4095)});  // only does anything while the array is empty
       return Op("init", {*range<int64_t>(0, 40), r, *range<int64_t>(0, 2), *range<int64_t>(0, 1), *gen_rec()});
     default:
       return Op("end", {*range<int64_t>(0, 1), *gen_rec()});
